@@ -1,4 +1,5 @@
 import Nitime.Props.C08
+import Nitime.Props.C08Cache
 open Nitime.C08.Props
 
 #print axioms normSq_coherency_eq_coherence
@@ -39,3 +40,9 @@ open Nitime.C08.Props
 #print axioms periodogram_csd_coherence_le_one
 #print axioms welch_completed_coherence_le_one
 #print axioms Nitime.Coh.segFft_eq
+#print axioms Nitime.C08.CacheProps.cache_coherency_norm_le_one
+#print axioms Nitime.C08.CacheProps.cache_coherency_hermitian
+#print axioms Nitime.C08.CacheProps.seed_row_norm_le_one
+#print axioms Nitime.C08.CacheProps.confidence_interval_chain_pure
+#print axioms Nitime.C08.CacheProps.coherence_stays_bounded
+#print axioms Nitime.C08.CacheProps.confidence_interval_inplace_counterexample
